@@ -13,9 +13,14 @@ let run (path : string) =
   let lines = read_lines path in
   let cases = ref 0 and steps = ref 0 and nontrivial = ref 0 in
   let z = z_of_int in
+  let kf_seen = ref 0 in
+  let exercised : (string, unit) Hashtbl.t = Hashtbl.create 64 in
+  let boundary_seen : (string, unit) Hashtbl.t = Hashtbl.create 64 in
+  let focused = ref false in
+  let no_amount : (string, unit) Hashtbl.t = Hashtbl.create 16 in
   L.iter (fun line ->
       match tokens line with
-      | "case" :: id :: "c14" :: handler :: app :: breaker :: esm :: mask :: np :: cls :: kind :: changed :: base_cls :: same :: [] ->
+      | "case" :: id :: "c14" :: handler :: app :: breaker :: esm :: mask :: np :: cls :: kind :: changed :: base_cls :: same :: reads :: needed :: tag :: [] ->
         incr cases; incr steps;
         let h = coq_of_string handler in
         let breaker = bool_of_tok breaker and esm = int_of_string esm and mask = int_of_string mask in
@@ -23,8 +28,13 @@ let run (path : string) =
         let ok = (cls = "ok") and changed = bool_of_tok changed and same = bool_of_tok same in
         let base_ok = (base_cls = "ok") in
         ignore app;
-        bump (Printf.sprintf "c14:b%d:e%d:%s:%s:%s" (if breaker then 1 else 0) esm (if mask = 0 then "p-all" else if mask = full then "p-none" else "p-some") cls kind);
-        Hashtbl.replace distinct (Digest.string (Printf.sprintf "%s %b %d %d" handler breaker esm mask)) ();
+        let reads = int_of_string reads and needed = int_of_string needed in
+        let boundary = (tag <> "default") in
+        Hashtbl.replace exercised handler ();
+        if boundary && breaker then Hashtbl.replace boundary_seen handler ();
+        bump (Printf.sprintf "c14:%s:b%d:e%d:%s:%s:%s" (if boundary then "boundary-amount" else "default-amount") (if breaker then 1 else 0) esm
+                (if mask = 0 then "p-all" else if mask = full then "p-none" else if mask land reads <> 0 then "p-some-read" else "p-some-unread") cls kind);
+        Hashtbl.replace distinct (Digest.string (Printf.sprintf "%s %b %d %d %s" handler breaker esm mask tag)) ();
         if base_ok && (breaker || esm > 0 || mask <> 0) then incr nontrivial;
         if cls = "panic" then bump ("c14:panic:" ^ handler);
         if not (handler_known h) then
@@ -52,11 +62,16 @@ let run (path : string) =
         (* property predicates on the implementation's observation *)
         if not (holds_C14 h breaker (z esm) ok changed) then
           predfail ~case:id ~step:1 ~pred:"holds_C14" ~kf:"none"
-            ~detail:(Printf.sprintf "%s_breaker=%b_esm=%d_mask=%d_cls=%s_changed=%b" handler breaker esm mask cls changed);
+            ~detail:(Printf.sprintf "%s_%s_breaker=%b_esm=%d_mask=%d_cls=%s_changed=%b" handler tag breaker esm mask cls changed);
         if (not breaker) && esm = 0 then
-          if not (holds_C14_price (mask <> 0) ok base_ok same changed) then
-            predfail ~case:id ~step:1 ~pred:"holds_C14_price" ~kf:"none"
-              ~detail:(Printf.sprintf "%s_mask=%d_cls=%s_outcome_differs_from_all_prices_active" handler mask cls)
+          if not (holds_C14_price (mask <> 0) (needed <> 0) ok base_ok same changed) then
+            let kf = if kf_C14_bid_stale_debt_price h (needed <> 0) ok base_ok same then "kf_C14_bid_stale_debt_price" else "none" in
+            (* Conv prints the first 200 failures only: a known class must not crowd out an unknown one *)
+            if kf <> "none" then incr kf_seen;
+            if kf <> "none" && !kf_seen > 20 then bump ("predfail-not-listed:holds_C14_price:" ^ kf) else
+            predfail ~case:id ~step:1 ~pred:"holds_C14_price" ~kf
+              ~detail:(Printf.sprintf "%s_%s_inactive-mask=%d_prices-read-when-active=%d_inactive-and-needed=%d_cls=%s_all-active-cls=%s_same-outcome=%b" handler tag mask reads needed cls base_cls same)
+      | "#" :: "no-amount-field" :: handler :: _ -> Hashtbl.replace no_amount handler ()
       | "case" :: id :: "sweep" :: name :: breaker :: div :: cls :: started :: [] ->
         incr cases; incr steps;
         let g = coq_of_string name in
@@ -71,8 +86,30 @@ let run (path : string) =
         if not (holds_C14_sweep breaker started) then
           predfail ~case:id ~step:1 ~pred:"holds_C14_sweep" ~kf:"none"
             ~detail:(Printf.sprintf "%s_started_under_breaker_div=%s" name div)
+      | "#" :: "focus" :: _ -> focused := true
       | _ -> ()
     ) lines;
+  (* coverage: every handler of the breaker scope was run, and (when it has an amount field at all: the
+     harness says so) with boundary amounts under the breaker; price-scope handlers that the matrix does
+     not reach (liquidation / auction bids need a running V1 auction) are listed in the evidence *)
+  if Sys.getenv_opt "VERIF_CASE" = None && !cases > 100 && not !focused then begin
+    L.iter (fun hn ->
+        let n = string_of_coq hn in
+        if not (Hashtbl.mem exercised n) then
+          mismatch ~case:"-" ~step:0 ~field:("coverage:" ^ n) ~model:"handler-in-breaker-scope" ~impl:"not-exercised"
+        else if (not (Hashtbl.mem boundary_seen n)) && not (Hashtbl.mem no_amount n) then
+          mismatch ~case:"-" ~step:0 ~field:("coverage-boundary-amounts:" ^ n) ~model:"boundary-amounts-under-breaker" ~impl:"never")
+      breaker_scope;
+    L.iter (fun hn ->
+        let n = string_of_coq hn in
+        if not (Hashtbl.mem exercised n) then bump ("c14:price-scope-handler-not-in-matrix:" ^ n))
+      price_scope_names
+  end;
   finish ~cases:!cases ~steps:!steps ~nontrivial:!nontrivial
 
+(* runner C14-focus <ignored>: the handlers whose regenerated row fails a C14 table check *)
+let focus (_ : string) =
+  L.iter (fun n -> print_endline ("FOCUS " ^ string_of_coq n)) c14_broken_rows
+
 let () = Conv.register "C14" run
+let () = Conv.register "C14-focus" focus
